@@ -30,7 +30,7 @@ def expr_classes(ctx: Ctx) -> list[str]:
 def check(ctx: Ctx, col: Collector, tier: str) -> None:
     repo = ctx.repo
     col.spec("C01.LIBAPI", "no attribute, call or comparison in the tool's code is rejected by the installed libraries' own type information",
-             "mypy (the repository's own dependency) diagnostics restricted to repository files", floor=1)
+             "mypy (the repository's own dependency) diagnostics restricted to repository files + inventory of silenced diagnostics", floor=2)
     col.spec("C01.DISPATCH", "no dispatcher over mypy node / type classes can receive a class it raises on", "partitioned abstract interpretation: failing input partition vs. class sets at the call sites", floor=16)
     col.spec("C01.STACK", "every handler accepts every declaration the walker can put below it; pushes and pops balance", "stack-shape analysis of the enter_/leave_ handlers", floor=11)
     col.spec("C01.TABLE", "closed tables cannot miss: every type kind the pipeline can produce is rendered; literal dict lookups have covered keys", "producer set vs. branches; key domains", floor=16)
@@ -57,6 +57,24 @@ def check(ctx: Ctx, col: Collector, tier: str) -> None:
         desc = f"{m.group(1)}.{m.group(2)}" if m else re.sub(r"\s+", " ", msg)[:60]
         col.bad("C01.LIBAPI", f"{rel}::{fn}::{code}::{desc}", f"src/safeds_stubgen/{rel}:{line}", msg[:200],
                 f"{fn}: {msg[:160]} - the statement fails at run time with the installed library version")
+    # diagnostics the authors silenced are statements the library's types reject: each needs a reason why it cannot fail
+    for rel, mi in repo.modules.items():
+        for ln, line in enumerate(mi.text.splitlines(), 1):
+            m = re.search(r"#\s*type:\s*ignore(\[([^\]]*)\])?", line)
+            if not m:
+                continue
+            codes = {c.strip() for c in (m.group(2) or "any").split(",")}
+            if m.group(2) and not codes & LIB_CODES:
+                continue
+            fn = next((fi.qualname for fi in mi.functions.values() if fi.node.lineno <= ln <= (fi.node.end_lineno or 0)), "?")
+            stmt = re.sub(r"\s+", " ", line.split("#")[0]).strip()
+            key = f"{rel}::{fn}::silenced::{sorted(codes)[0]}::{stmt[:60]}"
+            why = SILENCED.get((rel, fn, sorted(codes)[0]))
+            if why:
+                col.ok("C01.LIBAPI", key, f"src/safeds_stubgen/{rel}:{ln}", f"`{stmt[:70]}` silences {sorted(codes)}: {why}")
+            else:
+                col.bad("C01.LIBAPI", key, f"src/safeds_stubgen/{rel}:{ln}", f"`{stmt[:70]}` silences {sorted(codes)}",
+                        f"{fn}: `{stmt[:60]}` silences a mypy diagnostic {sorted(codes)} that means the statement can fail at run time; no reason is recorded why it cannot")
     col.ok("C01.LIBAPI", "package::mypy-diagnostics", "src/safeds_stubgen", f"mypy reports {len(mf.errors)} diagnostics in total, {len(errs)} in repository files with codes {sorted(LIB_CODES)}", nontrivial=True)
 
     # ------------------------------------------------------------------ DISPATCH
@@ -578,6 +596,12 @@ RAISE_CLASSES = {
     (DOCHELPERS, "get_full_docstring", "TypeError"): (1, "invariant: called with ClassDef / FuncDef nodes only (C13.SAME-SUBJECT)"),
 }
 
+
+# Silenced diagnostics (`# type: ignore[code]` with a code that means a failing statement), each with its reason.
+SILENCED = {
+    (VISITOR, f"{VCLS}.mypy_type_to_abstract_type", "union-attr"):
+        "library: mypy sets missing_import_name whenever it creates an AnyType of kind from_unimported_type (semanal.add_unknown_imported_symbol, typeanal copies it)",
+}
 
 # Lengths that hold by an invariant established elsewhere.  (module, function, base expression) -> (length, invariant).
 # An invariant is either a named structural check (evaluated on every run) or a library fact with its justification.
